@@ -131,6 +131,130 @@ def gopt_q(x):
     return gopt(None if x is None else gq(x))
 
 
+def _ground_fluents(env, exprs, subs):
+    """ground fluent expressions read by the expressions; None when a quantifier or a nested fluent makes it inexact"""
+    fve = env.free_vars_extractor
+    out = set()
+    for e in exprs:
+        txt = str(e).lower()
+        if "forall" in txt or "exists" in txt:
+            return None
+        for fl in fve.get(e):
+            for a in fl.args:
+                if fve.get(a):
+                    return None
+            out.add(str(fl.substitute(subs).simplify()))
+    return out
+
+
+def expected_events(problem, steps, eps):
+    """Independent reconstruction (from the property text, not from the code under test) of the events of a plan: for
+    each (time, generator) the ground fluents it READS (conditions whose interval contains the instant, with the
+    interval's own open/closed bounds; preconditions; non-constant duration bounds at the start; conditions and values
+    of the effects of that instant) and WRITES (targets of the effects of that instant).  Sorted by time, stable in
+    plan order, the mockup action (timed effects / goals, start 0) first.  None when the plan is outside the fragment
+    where this is exact (quantifiers, forall effects, nested fluents, simulated effects)."""
+    env = problem.environment
+
+    def eff_rw(effs, subs):
+        r, w = set(), set()
+        for e in effs:
+            if e.is_forall():
+                return None
+            g = _ground_fluents(env, [e.condition, e.value] + list(e.fluent.args), subs)
+            t = _ground_fluents(env, [e.fluent], subs)
+            if g is None or t is None:
+                return None
+            r |= g
+            w |= t
+        return r, w
+
+    def inside(t, lo, hi, lopen, ropen):
+        return (lo < t if lopen else lo <= t) and (t < hi if ropen else t <= hi)
+
+    chain = [(F(0), None, F(-1))] + list(steps)
+    events = []
+    for g, (start, ai, dur) in enumerate(chain):
+        if ai is None:
+            subs = {}
+            effects = {tm: list(el) for tm, el in problem.timed_effects.items()}
+            conds = {iv: list(cl) for iv, cl in problem.timed_goals.items()}
+            sim, dyn = {}, []
+        else:
+            a = ai.action
+            subs = dict(zip(a.parameters, ai.actual_parameters))
+            if dur is None:
+                rw = eff_rw(a.effects, subs)
+                pre = _ground_fluents(env, list(a.preconditions), subs)
+                if rw is None or pre is None or a.simulated_effect is not None:
+                    return None
+                events.append((start, g, rw[0] | pre, rw[1]))
+                continue
+            effects = {tm: list(el) for tm, el in a.effects.items()}
+            conds = {iv: list(cl) for iv, cl in a.conditions.items()}
+            sim = a.simulated_effects
+            dyn = [b for b in (a.duration.lower, a.duration.upper) if not b.is_constant()]
+        if sim:
+            return None
+
+        def ab(tm):
+            return start + F(tm.delay) + (0 if tm.is_from_start() else dur)
+        timings = {ab(tm) for tm in effects}
+        if dyn:
+            timings.add(start)
+        for iv in conds:
+            timings.add(ab(iv.lower) + (eps if iv.is_left_open() else 0))
+            timings.add(ab(iv.upper) - (eps if iv.is_right_open() else 0))
+        for t in sorted(timings):
+            if t < 0:
+                continue
+            r, w = set(), set()
+            for iv, cl in conds.items():
+                if inside(t, ab(iv.lower), ab(iv.upper), iv.is_left_open(), iv.is_right_open()):
+                    gr = _ground_fluents(env, cl, subs)
+                    if gr is None:
+                        return None
+                    r |= gr
+            if dyn and t == start:
+                gr = _ground_fluents(env, dyn, subs)
+                if gr is None:
+                    return None
+                r |= gr
+            for tm, el in effects.items():
+                if ab(tm) == t:
+                    rw = eff_rw(el, subs)
+                    if rw is None:
+                        return None
+                    r |= rw[0]
+                    w |= rw[1]
+            events.append((t, g, r, w))
+    order = sorted(range(len(events)), key=lambda i: events[i][0])     # stable
+    return [events[i] for i in order]
+
+
+def missing_orderings(events, edges):
+    """pairs (i, j), i < j, of events of DIFFERENT generators that interfere (one writes a ground fluent the other reads
+    or writes) and are NOT connected by a path of the partial-order plan: the STN plan then leaves them unordered"""
+    n = len(events)
+    reach = [set() for _ in range(n)]
+    succ = [[] for _ in range(n)]
+    for i, j in edges:
+        if i < n and j < n:
+            succ[i].append(j)
+    for i in range(n - 1, -1, -1):
+        for j in succ[i]:
+            reach[i].add(j)
+            reach[i] |= reach[j]
+    out = []
+    for i in range(n):
+        _ti, gi, ri, wi = events[i]
+        for j in range(i + 1, n):
+            _tj, gj, rj, wj = events[j]
+            if gi != gj and ((wi & (rj | wj)) or (ri & wj)) and j not in reach[i]:
+                out.append((i, j, sorted((wi & (rj | wj)) | (ri & wj))))
+    return out
+
+
 class Observation:
     """Everything observed from one real round trip of one plan."""
 
@@ -172,6 +296,19 @@ class Observation:
         for cur, nxt in po.get_adjacency_list.items():
             for n in nxt:
                 self.edges.append((pos[id(cur)], pos[id(n)]))
+
+        # independent check of the observed partial order: interfering events of different actions must be ordered
+        self.missing = None
+        try:
+            eps = problem.epsilon
+            if eps is None:
+                eps = F(1, 1000) if self.plan_eps is None else min(self.plan_eps / 10, F(1, 1000))
+            exp = expected_events(problem, steps, eps)
+            if exp is not None and len(exp) == len(seq):
+                self.missing = [(i, j, fl, str(exp[i][0]), str(exp[j][0])) for i, j, fl in missing_orderings(exp, self.edges)]
+        except Exception as e:  # noqa: the oracle is best effort outside its fragment
+            self.missing = None
+            self.oracle_error = "%s: %s" % (type(e).__name__, str(e)[:120])
 
         def node(n):
             if n.kind == TimepointKind.GLOBAL_START:
@@ -374,6 +511,23 @@ def generated_inputs(ctx, rng, stats):
                 stats["skipped"]["shape-not-valid:dyn-%s-%s-%s" % combo] += 1
                 continue
             yield "dyn:%s-%s-%s" % combo, sh.problem, steps, None
+    # durative conditions over all four open/closed combinations, with and without delays, another action's effect landing
+    # exactly on each bound (quick: one kind of `drop` per combination, rotating; thorough: all three)
+    from harness.gen.c26_gen import shape_half_open, HALF_COMBOS, HALF_DROPPERS
+    for ci, combo in enumerate(HALF_COMBOS):
+        for di, dr in enumerate(HALF_DROPPERS):
+            if ctx.quick and di != (ci + ctx.seed) % len(HALF_DROPPERS):
+                continue
+            for toggle in ((False,) if combo[0] else (False, True)):
+                sh = shape_half_open(rng, combo, dr, toggle)
+                steps = fresh(sh.steps)
+                valid, raised, _ = tt_validate(sh.problem, steps)
+                label = "half:%s%s%s-%s%s" % ("(" if combo[0] else "[", "delta" if combo[2] else "", ")" if combo[1] else "]", dr,
+                                              "-toggle" if toggle else "")
+                if not valid:
+                    stats["skipped"]["shape-not-valid:" + label] += 1
+                    continue
+                yield label, sh.problem, steps, None
     got = 0
     tries = 0
     while got < quota["shape"] and tries < quota["shape"] * 5:
@@ -440,7 +594,8 @@ def run(ctx):
              "plans_with_coinciding_happenings": 0, "timed_effects": 0, "timed_goals": 0, "open_intervals": 0,
              "explicit_epsilon": 0, "invariants": 0, "dyn_durations": 0, "outside_hypotheses": 0,
              "not_epsilon_conformant": 0, "back_valid": 0, "back_invalid": 0, "coq_judged_back_plans": 0,
-             "constraints": 0, "equality_constraints": 0}
+             "constraints": 0, "equality_constraints": 0,
+             "ordering_oracle_checked": 0, "ordering_oracle_not_applicable": 0}
     obs, cases = [], []
     nontriv = set()
     import time
@@ -532,6 +687,17 @@ def run(ctx):
                 payload["model"] = ctx.coq_show("show c", imports=IMPORTS, preamble="Definition c := %s.\n" % o.case())
             ctx.fail("corr", "implementation differs from the model of _convert_to_stn / STNPlan (corr:C26:convert_to_stn/"
                              "plan_constraints/to_tt/extract_epsilon)", ["c26", "model-drift"] + shape, payload, False)
+        if o.missing is None:
+            stats["ordering_oracle_not_applicable"] += 1
+        else:
+            stats["ordering_oracle_checked"] += 1
+            if o.missing:
+                payload["missing_orderings"] = o.missing[:10]
+                ctx.fail("corr", "the partial-order plan used by _convert_to_stn leaves interfering events of different actions "
+                                 "unordered (events %d at %s and %d at %s, fluents %s): the events handed to the deordering do not "
+                                 "read/write what the plan's conditions and effects say (corr:C26:_extract_instantenous_actions/"
+                                 "_is_time_in_interv)" % (o.missing[0][0], o.missing[0][3], o.missing[0][1], o.missing[0][4], o.missing[0][2]),
+                         ["c26", "forward", "ordering-missing"] + shape, payload, False)
         if code & 16:
             ctx.fail("corr", "hypotheses hold but the model violates the proved statement (theorem instance fails?)",
                      ["c26", "model-vs-theorem"], payload, False)
